@@ -276,3 +276,13 @@ add('HILB',
     Rule('X-HILB', 'o.par_iter_mut().take($n:e).enumerate().for_each($c:e);', 'hilbert_kernel(&mut oo, &iv, $n, self.ntaps, &self.filter);', stmt_start=True),
     Rule('X-HILB', 'self.history[..self.ntaps].clone_from_slice(&iv[$a:e..$b:e]);', 'history_from(&mut self.history, self.ntaps, &iv, $a, $b);', stmt_start=True),
     Rule('X-HILB', '$ts:i.retain(|t| t.pos() < $n:e);', 'retain_tags_before(&mut $ts, $n);', stmt_start=True))
+
+# X-FFTS (unit fftstream)
+add('FFTS',
+    Rule('X-FFTS', 'std::sync::Arc<dyn rustfft::Fft<Float>>', 'FftPlan'),
+    Rule('X-FFTS', 'let oo = o.slice();', '', stmt_start=True),
+    Rule('X-FFTS', 'oo[..$k:e].copy_from_slice(&ii[..$k2:e]);', 'o.copy_prefix_from(&input, $k);', stmt_start=True),
+    Rule('X-FFTS', 'oo.len()', 'o.len()'),
+    Rule('X-FFTS', 'use rayon::prelude::*;', '', stmt_start=True),
+    Rule('X-FFTS', 'oo.par_chunks_exact_mut($s:e).for_each($c:e);', 'fft_chunks(&mut o, $s, &self.fft);', stmt_start=True),
+    Rule('X-FFTS', 'oo.chunks_exact_mut($s:e).for_each($c:e);', 'fft_chunks(&mut o, $s, &self.fft);', stmt_start=True))
